@@ -12,7 +12,7 @@ import (
 func init() { Registry["C01"] = c01 }
 
 func c01(c *core.Ctx) map[string]interface{} {
-	c.Explanation = "Static check of the NG Setup and initial-registration procedure script (C01): the structural part of 'the exchange is accepted by a conformant AMF'. Decided: (R0.nilglobal) as for C03; (R1.order) on every path of ManageNGSetup and RegisterUE the N2 sends are exactly NGSetupRequest / InitialUEMessage[RegistrationRequest], UplinkNASTransport[AuthenticationResponse], UplinkNASTransport[SecurityModeComplete], InitialContextSetupResponse, UplinkNASTransport[RegistrationComplete], in this order, each answer preceded by a receive, each sent buffer being the direct result of the build-and-encode wrapper of that message; (R1.sec) SecurityModeComplete is protected with header type 4 and newSecurityContext=true and is the first protected message after the key derivation, RegistrationComplete with header type 2 and newSecurityContext=false, Registration Request and Authentication Response go out plain; (R1.ids) every wrapper receives the AmfUeNgapId/RanUeNgapId of the UE being registered in the parameter of that role, AmfUeNgapId is assigned, before its first use, from IE 0 (AMF-UE-NGAP-ID, mandatory and first by TS 38.413 9.2.5.2) of the same decoded DownlinkNASTransport that delivered the Authentication Request, RAND and AUTN handed to the key derivation are the ones of that Authentication Request, RES* returned by the derivation is the argument of the Authentication Response, the Registration Request carries the SUCI of the UE's own SUPI and its security capability; (R1.naspdu) GetNasPdu selects the NAS-PDU IE by its id (optional IEs before it do not matter) and hands it to NASDecode with the header type read from it; (R1.snn) the serving network name is 5G:mnc<3 digits>.mcc<mcc>.3gppnetwork.org with a zero pad exactly for a 2-digit MNC; (R1.plmn = R11.plmn) the announced PLMN is octets 1..3 of the SUCI encoding; (R1.main) main hands the configured gNB id/bit length/name, MNC, MCC, K, OP, OPc to the drivers unchanged and connects, sets up NG and registers in this order; (R1.ppid) the association's default PPID is 60 (NGAP, TS 38.412) in network byte order. (components) the rule sets of C03 (canonical APER inputs and error discipline), C05 (5G-AKA derivation), C06 (uplink NAS protection and COUNT), C07 (NEA/NIA), C11 (SUCI/PLMN) and C13 (NGAP builders) are run as part of this check, because the registration is accepted only if each of them holds. (R9.mt/R9.ctor/R9.acc) message-type constants, the emulator's NAS constructors and the bit layout of the IE accessors they use are checked as in C09. NOT decided: that the bytes are accepted by a real AMF for every runtime value (no AMF model is executed); that the AMF's answers are the expected message types; the NAS wire layout (C09, checked separately because it carries listed findings on messages this exchange does not use)."
+	c.Explanation = "Static check of the NG Setup and initial-registration procedure script (C01): the structural part of 'the exchange is accepted by a conformant AMF'. Decided: (R0.nilglobal) as for C03; (R1.order) on every path of ManageNGSetup and RegisterUE the N2 sends are exactly NGSetupRequest / InitialUEMessage[RegistrationRequest], UplinkNASTransport[AuthenticationResponse], UplinkNASTransport[SecurityModeComplete], InitialContextSetupResponse, UplinkNASTransport[RegistrationComplete], in this order, each answer preceded by a receive, each sent buffer being the direct result of the build-and-encode wrapper of that message; (R1.sec) SecurityModeComplete is protected with header type 4 and newSecurityContext=true and is the first protected message after the key derivation, RegistrationComplete with header type 2 and newSecurityContext=false, Registration Request and Authentication Response go out plain; (R1.ids) every wrapper receives the AmfUeNgapId/RanUeNgapId of the UE being registered in the parameter of that role, AmfUeNgapId is assigned, before its first use, from IE 0 (AMF-UE-NGAP-ID, mandatory and first by TS 38.413 9.2.5.2) of the same decoded DownlinkNASTransport that delivered the Authentication Request, RAND and AUTN handed to the key derivation are the ones of that Authentication Request, RES* returned by the derivation is the argument of the Authentication Response, the Registration Request carries the SUCI of the UE's own SUPI and its security capability; (R1.naspdu) GetNasPdu selects the NAS-PDU IE by its id (optional IEs before it do not matter) and hands it to NASDecode with the header type read from it; (R1.snn) the serving network name is 5G:mnc<3 digits>.mcc<mcc>.3gppnetwork.org with a zero pad exactly for a 2-digit MNC; (R1.plmn = R11.plmn) the announced PLMN is octets 1..3 of the SUCI encoding; (R1.main) main hands the configured gNB id/bit length/name, MNC, MCC, K, OP, OPc to the drivers unchanged and connects, sets up NG and registers in this order; (R1.ppid) the association's default PPID is 60 (NGAP, TS 38.412) in network byte order. (components) the rule sets of C03 (canonical APER inputs and error discipline), C05 (5G-AKA derivation), C06 (uplink NAS protection and COUNT), C07 (NEA/NIA), C11 (SUCI/PLMN) and C13 (NGAP builders) are run as part of this check, because the registration is accepted only if each of them holds. (R9.mt/R9.ctor/R9.acc) message-type constants, the emulator's NAS constructors and the bit layout of the IE accessors they use are checked as in C09. (how) R1.order, R1.ids, R1.snn and R11.plmn read the evaluator model of the drivers: each driver is interpreted abstractly with the helpers of package stgutg (and forwarding layers of tglib) entered and every library boundary replaced by a named result, so a step moved into a helper is the same step; argument roles are checked as value-at-the-call = content of the UE field at the call; the SSA def-use form of these rules is the fallback when a driver cannot be evaluated (noted). (R0.swap, via C05) no call of the emulator packages passes two same-typed variables each named after the other's parameter. NOT decided: that the bytes are accepted by a real AMF for every runtime value (no AMF model is executed); that the AMF's answers are the expected message types; the NAS wire layout (C09, checked separately because it carries listed findings on messages this exchange does not use)."
 	c.Assumptions = []string{"ManageError terminates the process when its error argument is non-nil (C19)", "a conformant AMF sends the IEs of a message in the order of TS 38.413 9.2 (clause 10.3.6)"}
 	r0nilglobal(c, ngapEntries(c)...)
 	r1order(c)
